@@ -426,3 +426,66 @@ M("l6-encode-before-gate", "C09", "fire L6", "src/eval.rs",
 M("l2-tuple-guard-removed", "C09", "fire L2", "src/literal.rs",
   """            (Literal::Tuple(fields1), Type::Tuple(fields2)) if fields1.len() == fields2.len() => {""",
   """            (Literal::Tuple(fields1), Type::Tuple(fields2)) => {""", "tuple literals with missing components accepted")
+
+# ---------------------------------------------------------------- C17
+REVERT("revert-irrefutable-bindings", "C17", "fire T4", "a9fb7c7", "pre-fix tree: refutable let / for patterns accepted")
+M("t1-if-condition-error-dropped", "C17", "fire T1", "src/check.rs",
+  """                        if let Err(e) = condition {
+                            errors.extend(e);
+                        }
+                        if let Err(e) = case_true {""",
+  """                        if let Err(e) = condition {
+                            drop(e);
+                        }
+                        if let Err(e) = case_true {""", "errors of an if condition vanish when a branch is ill-typed too (can end in Err(vec![]))")
+M("t2-assign-to-immutable", "C17", "fire T2", "src/check.rs",
+  """                    Some((Some(mut elem_ty), Mutability::Mutable)) => {
+                        let mut typed_accessors = vec![];""",
+  """                    Some((Some(mut elem_ty), _)) => {
+                        let mut typed_accessors = vec![];""", "assignment to a binding not declared mut is accepted")
+M("t3-if-condition-not-bool", "C17", "fire T3", "src/check.rs",
+  """                        check_type(&mut condition, &Type::Bool)?;
+                        let ty = unify(&mut case_true, &mut case_false, meta)?;""",
+  """                        let ty = unify(&mut case_true, &mut case_false, meta)?;""", "non-Boolean if conditions accepted")
+M("t3-arith-on-bool", "C17", "fire T3", "src/check.rs",
+  """                    let ty = unify(&mut x, &mut y, meta)?;
+                    expect_num_type(&ty, meta)?;
+                    (ExprEnum::Op(*op, Box::new(x), Box::new(y)), ty)
+                }
+                Op::ShortCircuitAnd""",
+  """                    let ty = unify(&mut x, &mut y, meta)?;
+                    (ExprEnum::Op(*op, Box::new(x), Box::new(y)), ty)
+                }
+                Op::ShortCircuitAnd""", "true + false accepted")
+M("t3-assign-value-unchecked", "C17", "fire T3", "src/check.rs",
+  """                        let mut value = value.type_check(top_level_defs, env, fns, defs)?;
+                        check_type(&mut value, &elem_ty)?;
+                        Ok(Stmt::new(""",
+  """                        let value = value.type_check(top_level_defs, env, fns, defs)?;
+                        Ok(Stmt::new(""", "x = <value of another type> accepted")
+M("t5-guard-not-cleared", "C17", "fire T5", "src/check.rs",
+  """        fns.currently_being_checked.remove(&self.identifier);
+""", "", "second call of a function reported as recursion / guard leaks")
+M("t6-block-no-pop", "C17", "fire T6", "src/check.rs",
+  """                let (body, ty) = type_check_block(stmts, top_level_defs, env, fns, defs)?;
+                env.pop();
+                (ExprEnum::Block(body), ty)""",
+  """                let (body, ty) = type_check_block(stmts, top_level_defs, env, fns, defs)?;
+                (ExprEnum::Block(body), ty)""", "bindings of a block stay visible after it")
+M("t6-match-shared-scope", "C17", "fire T6", "src/check.rs",
+  """                for (pattern, expr) in clauses {
+                    env.push();
+                    let pattern = pattern.type_check(env, fns, defs, Some(ty.clone()));
+                    let expr = expr.type_check(top_level_defs, env, fns, defs);
+                    env.pop();
+                    match (pattern, expr) {""",
+  """                env.push();
+                for (pattern, expr) in clauses {
+                    let pattern = pattern.type_check(env, fns, defs, Some(ty.clone()));
+                    let expr = expr.type_check(top_level_defs, env, fns, defs);
+                    match (pattern, expr) {""", "needs a matching pop after the loop: see seed C17-a for the complete change; here the scope is never popped")
+M("t3-shift-reorder", "C17", "quiet", "src/check.rs",
+  """                    expect_num_type(&x.ty, x.meta)?;
+                    check_or_constrain_unsigned(&mut y, UnsignedNumType::U8)?;""",
+  """                    check_or_constrain_unsigned(&mut y, UnsignedNumType::U8)?;
+                    expect_num_type(&x.ty, x.meta)?;""", "behaviour-preserving for acceptance: checks reordered")
